@@ -116,19 +116,47 @@ class C17(Prop):
         return f"flagged={flagged},nested={any(p_ is not None for p_, _ in obs)}"
 
     def classify(self, case, obs):
-        """known finding: an opener with an EMPTY body -- the next instruction line (ignoring blank/comment lines) is
-        not deeper than the opener -- keeps being the parent: following lines are nested one level too deep, unflagged"""
+        """re-run the per-line monitor in Python to find the offending lines; a case belongs to a known finding only if
+        EVERY offending line comes after (a) an opener with an EMPTY body (the next unflagged instruction line is not
+        deeper than the opener) or (b) a FLAGGED opener (which keeps adopting the lines that follow it)"""
         pre, res = self.observe(case)
-        if any(e for _, e in res):
+
+        def owner(k):
+            c = pre[k][0]
+            for j in range(k - 1, -1, -1):
+                cj, kj, _ = pre[j]
+                if kj == 0 or (res[j][1] and kj != 1):
+                    continue
+                if cj < c:
+                    return j
             return None
-        last = None
-        for i, (c, k, e) in enumerate(pre):
-            if k == 0:
+
+        def empty_body(p_):
+            for j in range(p_ + 1, len(pre)):
+                if pre[j][1] == 0 or res[j][1]:      # blank/comment lines and flagged lines do not count as a body
+                    continue
+                return pre[j][0] <= pre[p_][0]
+            return False
+        bad = []
+        for k, (c, kind, _) in enumerate(pre):
+            if kind == 0 or res[k][1]:
                 continue
-            if last is not None and pre[last][1] == 1 and pre[last][0] >= c:
-                return "C17-empty-body-opener-adopts-next-line"
-            last = i
-        return None
+            o = owner(k)
+            par = res[k][0]
+            ok = (c == 0 and par is None) if o is None else (pre[o][1] == 1 and pre[o][0] + 4 == c and par == o)
+            if not ok:
+                bad.append(k)
+        if not bad:
+            return None
+        keys = set()
+        for k in bad:
+            if any(pre[p_][1] == 1 and empty_body(p_) for p_ in range(k)):
+                keys.add("C17-empty-body-opener-adopts-next-line")
+            elif any(pre[p_][1] == 1 and res[p_][1] for p_ in range(k)):
+                keys.add("C17-flagged-opener-adopts-following-lines")
+            else:
+                return None
+        return sorted(keys)[-1] if "C17-flagged-opener-adopts-following-lines" in keys else sorted(keys)[0]
 
 
 PROP = C17()
